@@ -2,6 +2,7 @@ SPECIFICATION Spec
 CONSTANTS P = 4
           J = 9
           Horizon = 40
+          ListFailureUsesDirAge = FALSE
           SweepStopsWriter = FALSE
           StopOnWriteError = FALSE
           MaxFaults = 1
